@@ -84,6 +84,12 @@ def tags(prog):
                 t.add("inner:" + op)
             for e in _step_exprs(s):
                 _expr_tags(e, t)
+            if op == "sort":
+                tt = set()
+                for kk in s["keys"]:
+                    _expr_tags(kk["e"], tt)
+                if any(x.startswith("fn:") for x in tt):
+                    t.add("sort-by-window")
             if op == "derive":
                 for it in s["items"]:
                     if it["e"].get("t") == "col" and it["n"] and it["n"] != it["e"]["name"]:
